@@ -97,6 +97,21 @@ structure PickSpec (pick : Pick α) : Prop where
   min : ∀ l m r, pick l = some (m, r) → ∀ x ∈ l, m.f ≤ x.f
   rest : ∀ l m r, pick l = some (m, r) → ∀ x, x ∈ r ↔ (x ∈ l ∧ x.node ≠ m.node)
 
+/-- the priority queue: there is an invariant `Good` of the queue content (for gonum's binary heap:
+heap order and at most one entry per node; for the abstract list queue: nothing) under which
+`push` adds the entry, `update` replaces the entry of a node, and `pop` removes an entry of minimal
+`f` leaving the entries of the other nodes — all three preserving `Good` -/
+structure QueueSpec (Q : Queue α) (Good : List (Entry α) → Prop) : Prop where
+  good_nil : Good []
+  push_nil : ∀ e, Q.push [] e = [e]
+  push : ∀ l e, Good l → (∀ x ∈ l, x.node ≠ e.node) →
+    Good (Q.push l e) ∧ ∀ x, x ∈ Q.push l e ↔ (x ∈ l ∨ x = e)
+  update : ∀ l v g f, Good l → (∃ x ∈ l, x.node = v) →
+    Good (Q.update l v g f) ∧ ∀ x, x ∈ Q.update l v g f ↔ ((x ∈ l ∧ x.node ≠ v) ∨ x = ⟨v, g, f⟩)
+  pop_none : ∀ l, Q.pop l = none ↔ l = []
+  pop : ∀ l m r, Good l → Q.pop l = some (m, r) →
+    m ∈ l ∧ (∀ x ∈ l, m.f ≤ x.f) ∧ (∀ x, x ∈ r ↔ (x ∈ l ∧ x.node ≠ m.node)) ∧ Good r
+
 /-- weights of existing edges are defined and non-negative and agree with the graph `G` -/
 def WeightsOk (A : Adapter α) (G : Graph α) : Prop :=
   (∀ u, A.frm u = G.adj u) ∧ ∀ u v, v ∈ G.adj u → A.weight u v = some (G.w u v) ∧ 0 ≤ G.w u v
